@@ -44,6 +44,7 @@ struct thr {
 	long nsleeps;
 	int aim;             /* the thread has just cleared a flag (1 -> 0) with an atomic store: its next shared plain access is an aimed preemption point */
 	long pending_snap;   /* trace index whose post-state snapshot is taken when this thread next parks */
+	long plain_run;      /* instrumented plain accesses since this thread's last scheduling point: a loop without any atomic operation, futex call or yield never gives the baton back */
 	int obs_on;          /* observer mode (vrt_observer_begin/end): plain writes outside [obs_lo, obs_hi) and the own stack are C16 violations */
 	const char *obs_lo, *obs_hi;
 };
@@ -320,6 +321,10 @@ void vrt_plain (const void *addr, int size, int is_write, const void *pc) {
 	int t = self_id, g;
 	if (!started || in_snapshot || t == 0) return;
 	nplain++;
+	if (++T[t].plain_run > 20000000L) {
+		vrt_fail ("BUDGET", "thread %d has made %ld plain accesses without reaching any atomic operation, futex call, yield or allocation: "
+			  "it spins in a loop that no other thread can end (livelock)", t, T[t].plain_run);
+	}
 	int own = (char *) addr >= T[t].stack_lo && (char *) addr < T[t].stack_hi;
 	if (own) {
 		/* own stack: private unless another thread has accessed this very word (an on-stack nsync_waiter_s record handed to wakers:
@@ -517,6 +522,7 @@ static struct thr *sched_point (int kind) {
 	if (me->pending_snap >= 0) { take_snapshot (me->pending_snap); me->pending_snap = -1; }
 	steps++;
 	me->nsteps++;
+	me->plain_run = 0;
 	if (steps > max_steps) {
 		vrt_fail ("BUDGET", "step budget %ld exhausted (last progress at step %ld): livelock or starvation",
 			  max_steps, last_progress_step);
@@ -828,6 +834,8 @@ static struct blk blks[2048];
 static int nblks = 0;
 void vrt_fail_alloc_after (int k) { fail_alloc_at = k > 0 ? alloc_count + k : 0; }
 void vrt_fail_my_alloc_after (int k) { my_fail_in = k > 0 ? k : 0; }
+/* scenario-side peek at a word of library state for DIRECTING a run (not instrumented, not a scheduling point, not part of race detection) */
+uint32_t vrt_peek32 (const void *p) { return *(const volatile uint32_t *) p; }
 int vrt_alloc_count (void) { return alloc_count; }
 void *vrt_malloc (size_t n) {
 	size_t pg = 4096, len;
